@@ -34,6 +34,8 @@ META["explanation"] += " " + '(ERR-scan, shared with C09) the bool result of a s
 
 META["explanation"] += " " + '(HEX-four) every HexStringToNumber call in UnEscape is the cursor form and the cursor is compared with the expected end afterwards. (PR-lowsurr) the two-unit skip in front of a low surrogate is unreachable once the true edges of the tests of those units against the backslash and against u/U are cut.'
 
+META["explanation"] += " " + 'Taken over unchanged from other modules because a seeded change to this property was reported by them (rules.common.shared): TB-ws/TB-brackets/X-surrogate/X-valuestart from C06.'
+
 def cursor_and_bound(fn):
     """(by-ref unsigned cursor parameter, bound parameter) of a descent function"""
     c = CONTRACTS.get(fn.q)
@@ -133,7 +135,7 @@ def rule_scratch(ctx, m):
     return scratch
 
 
-def run(ctx):
+def _run_own(ctx):
     m = ctx.pattern()
     table = ContractTable(CONTRACTS)
     gate = Rule("PR-gate", "Parse returns the parsed value only under offset == length after the trailing whitespace skip", floor=2)
@@ -699,3 +701,11 @@ def rule_escape_units(ctx, m):
                "the two units after a high surrogate are skipped without being looked at (%s not tested): [\"\\uD83D\"]1234\"] is accepted, the `\"]` is swallowed as if it were \\u"
                % ", ".join(k for k, v in tests.items() if not v), ue.loc(y))
     return [hexr, low]
+
+
+def run(ctx):
+    rules_ = list(_run_own(ctx) or [])
+    from rules.common import shared
+    have = set(r_.rid for r_ in rules_)
+    rules_ += [r_ for r_ in shared(ctx, 'C06', ['TB-ws', 'TB-brackets', 'X-surrogate', 'X-valuestart']) if r_.rid not in have]
+    return rules_
